@@ -218,9 +218,9 @@ pub fn emit_module(d: &Decl) -> String {
     if has_enum {
         paths_used += 1;
     }
-    if !d.auto_flush {
-        paths_used += 1;
-    }
+    // static form: the try_get chain; auto-flush form: the same field paths used from a second thread (every thread has
+    // its own thread-local accumulator behind the one static handle)
+    paths_used += 1;
     for (i, leaf) in lv.iter().enumerate() {
         let n = (i + 1) as u64;
         // (1) the field path
@@ -300,6 +300,20 @@ pub fn emit_module(d: &Decl) -> String {
             }
         }
     }
+    // a second thread uses the same static handle: its own thread-local accumulators, flushed there
+    if d.auto_flush {
+        s.push_str("    std::thread::spawn(|| {\n        let m = &*M;\n");
+        for (i, leaf) in lv.iter().enumerate() {
+            let n = (i + 1) as u64;
+            let fields: Vec<String> = leaf.iter().enumerate().map(|(li, vi)| format!(".{}", d.labels[li].values[*vi].ident)).collect();
+            s.push_str(&format!("        m{}{};\n", fields.join(""), upd(format!("{}u64", n * 1_000_000))));
+        }
+        for leaf in lv.iter() {
+            let fields: Vec<String> = leaf.iter().enumerate().map(|(li, vi)| format!(".{}", d.labels[li].values[*vi].ident)).collect();
+            s.push_str(&format!("        m{}.flush();\n", fields.join("")));
+        }
+        s.push_str("    }).join().unwrap();\n");
+    }
     // expected children
     s.push_str("    let mut expected: std::collections::BTreeMap<Vec<(String, String)>, f64> = std::collections::BTreeMap::new();\n");
     s.push_str("    let mut leaves_of: std::collections::BTreeMap<Vec<(String, String)>, u64> = std::collections::BTreeMap::new();\n");
@@ -311,9 +325,7 @@ pub fn emit_module(d: &Decl) -> String {
         if has_enum {
             total += n * 1000;
         }
-        if !d.auto_flush {
-            total += n * 1_000_000;
-        }
+        total += n * 1_000_000;
         let lit: Vec<String> = pairs.iter().map(|(k, v)| format!("({}.to_string(), {}.to_string())", rust_str(k), rust_str(v))).collect();
         s.push_str(&format!("    *expected.entry(vec![{}]).or_insert(0.0) += {}f64;\n", lit.join(", "), total));
         s.push_str(&format!("    *leaves_of.entry(vec![{}]).or_insert(0) += 1;\n", lit.join(", ")));
@@ -563,12 +575,13 @@ impl Property for C19 {
          vector. A batch of declarations is written as one crate (one module each) with a generated driver per declaration, built \
          against the working tree and run. Oracle: the backing vector has exactly one child per declared leaf, labelled with the \
          declared value strings, whose value is the sum of the leaf-unique updates made through the field path, the get(enum) chain \
-         and the try_get(str) chain of that leaf; try_get of undeclared strings is None; after flush no local data remains; a \
+         and the try_get(str) chain of that leaf (auto-flush form: and the field path used and flushed from a second thread); aliased \
+         leaves share one child; try_get of undeclared strings is None; after flush no local data remains; a \
          declaration that does not compile is a failure. Non-trivial: >= 2 labels with >= 2 values, an enum or renamed value, and a \
          permuted vector label order. Distinct = distinct declarations."
     }
     fn assumptions(&self) -> Vec<&'static str> {
-        vec!["two values of one label never share a string (they would legitimately address the same child)"]
+        vec!["two value names of one label that share a string are aliases of one child: the updates made through both are expected to add up there"]
     }
     fn budget(&self, _tier: Tier) -> Budget {
         // all work happens in `post` (batched compilation); the per-case path is used for replay only
